@@ -14,32 +14,50 @@ import itertools
 import json
 
 ID = "C16"
-LEVEL_TEXT = ("Theorems over all operation histories (induction over the op list, no bound): every history whose objects enter the tree "
-              "fresh and under their own name (top_down) keeps Inv = {member.parent is the container, member.name is its key, parents "
-              "precede children, aliases-dictionary keys are the aliases' current paths, every alias reachable from the collection and "
-              "resolved is listed in its target's aliases under its path}; consequences: retrievable by own path, dotted = chained lookup, "
-              "deleted members are gone, refinement to a reference dictionary path->object, aliases follow a set_member replacement; "
-              "no alias ever targets itself for ANY history (no discipline needed); the back-reference clause is refuted for bottom-up "
-              "histories by a machine-checked witness (finding C16-F1) and proved modulo that gap predicate. Model tied to the code by "
-              "exhaustive-small and random differential histories comparing the full abstract state after every step.")
-LEVEL_NOTE = ("Trusted: Coq kernel, extraction, the object->state abstraction in this module. Modelled, not verified: navigation THROUGH an "
-              "alias and alias->alias chains are outside the model (explicit result `scope`; such operations are skipped in the differential "
-              "run and exercised only by the implementation-only stream); modules have no filepath (stub merge branch of set_member not "
-              "modelled, exercised only by the implementation-only stream); classes have no bases (all_members = members).")
+LEVEL_TEXT = ("19 theorems over ALL operation histories (induction over the op list, no length bound), closed under the global context. "
+              "For every history that inserts objects fresh and under their own name and applies operations to objects that are in the "
+              "tree (all_top_down), the invariant Inv holds in every reachable state (C16_inv_init/_step/_reachable): member.parent is the "
+              "container and member.name its key, parents precede children (so obj.path terminates: the fuel the model passes is proved "
+              "sufficient), keys of every aliases dictionary are the current paths of their values and are distinct, every resolved alias "
+              "reachable from the collection is listed in its target's aliases under its path. Consequences proved from Inv: retrievable by "
+              "own path, parent-is-container, top-level members reach the collection; for every state: dotted lookup = chained lookup, "
+              "dotted string = tuple of names, deleted members are gone / a rejected deletion changes nothing; refinement to the reference "
+              "dictionary path->object for set, del, rejected insertions and alias operations; aliases follow a set_member replacement. "
+              "No alias ever targets itself after ANY history (no discipline at all). The back-reference clause is REFUTED for bottom-up "
+              "histories by a vm_compute witness (finding C16-F1) and proved modulo that decidable gap predicate. The model is tied to the "
+              "code by exhaustive-small and state-guided random differential histories comparing the full abstract state of every object "
+              "ever constructed after every step, plus direct evaluation of every clause and of a reference dictionary on the live objects.")
+LEVEL_NOTE = ("Trusted: Coq kernel, extraction, the object->state abstraction World.dump in this module. Modelled, not verified: navigation "
+              "THROUGH an alias (Alias.members builds transient aliases) and alias->alias chains (Alias.aliases forwards to final_target) "
+              "are outside the model: the model answers `scope`, such operations are skipped in the differential run (about 1-2% of the "
+              "generated operations) and are exercised only by the implementation-only stream, where the clauses parent/retrievable/"
+              "dotted=chained/deleted-gone/no-self-target/direct back-reference are evaluated without a model. Modules in the model carry "
+              "no filepath, so the stub-merge branch of set_member is exercised only by the implementation-only stream. Classes have no "
+              "bases (all_members = members). Which exception reports a rejection (KeyError vs AttributeError; AliasResolutionError vs "
+              "ValueError raised while building its message) is canonicalised away. target_path after a set_member replacement is the "
+              "detached name of the new object ('f', not 'm.f'): modelled as is, not part of the property.")
 MODEL = ("Model.C16_tree", "run_C16")
 COQ_TARGETS = ["Proofs/C16_tree.vo"]
-RULE = ("exhaustive: every sequence of <=2 operations (quick; + a seeded sample of length 3 and 4; thorough: all of length 3 over the "
-        "reduced alphabet) over the alphabet {new/set_member/__setitem__ x 2 names x depth<=2(+a.a.a) x kinds M,C,F,A,alias(str target), "
-        "del_member/__delitem__, resolve id, target:= id id}; random: state-guided histories of length 5..40 over 3 names x 5 kinds, "
-        "receivers collection/object, key as dotted string or tuple, top-down stream, bottom-up stream (detached construction) and a "
-        "malformed stream (empty keys, empty components, missing paths, self targets). non-trivial = at least one operation succeeded "
-        "and the final tree has depth >= 2 or an alias; distinct by canonical operation list")
-TRUSTED = ["abstraction: harness/props/c16.py:World.dump reads name, kind, parent, members, resolved target, target_path, aliases, "
-           "modules_collection reachability and path of every object ever constructed in the history"]
-ASSUMPTIONS = ["objects enter the tree fresh (no members, no parent) and under their own name; the collection holds no alias directly "
-               "(predicate top_down of the model; the bottom-up stream exercises the complement and reproduces C16-F1)",
+RULE = ("corpus/C16 first; exhaustive: every sequence of <=2 operations over an alphabet of 127 operations {set_member/__setitem__ of a "
+        "fresh M/C/F/A/alias(3 string targets) at 7 paths of depth<=3 over 2 names, del_member/__delitem__ at the same paths, "
+        "resolve id<3, target:= id id (<3), 3 object-receiver insertions}, key alternately dotted string / tuple; quick: + 12000 seeded "
+        "sequences of length 3-4 and a quarter of all triples over a reduced 19-operation alphabet; thorough: all triples and quadruples "
+        "over the reduced alphabet + 80000 seeded sequences of length 3-5; random: state-guided histories of length 5..40 over 3 names x 5 "
+        "kinds, receivers collection/object (absolute and relative), string or object alias targets, streams top-down / bottom-up "
+        "(detached construction with alloc+set, dead references) / malformed (empty keys, empty components, missing and over-long paths, "
+        "self targets); implementation-only histories with alias chains, lookups through aliases and .py/.pyi modules (stub merge). "
+        "non-trivial = at least one operation succeeded and the final tree has depth >= 2 or an alias; distinct by canonical operation list")
+TRUSTED = ["abstraction: harness/props/c16.py:World.dump reads name, kind, parent, members (ordered), resolved target, target_path, "
+           "aliases (sorted), modules_collection reachability and path of every object ever constructed in the history",
+           "harness-side mirrors is_top_down / alloc_verdict of the model predicates are cross-checked against the model on every step"]
+ASSUMPTIONS = ["hypotheses the proofs forced (predicate top_down, checked against the code by the bottom-up / dead-reference streams which "
+               "reproduce the failures outside it): objects enter the tree fresh (no members, no parent) and under their own name; the "
+               "collection holds no alias directly (its path raises AttributeError); every receiver / alias an operation is applied to is "
+               "in the tree at that moment (assigning the target of an alias that was replaced at the same path overwrites the live "
+               "alias's back-reference)",
+               "names are identifiers: non-empty and dot-free (else the dotted string cannot address the member)",
                "alias chains and navigation through aliases are C06's subject and outside this model",
-               "the exception *type* of a rejected operation is not part of the property: KeyError and AttributeError are both `missing`"]
+               "the exception *type* of a rejected operation is not part of the property"]
 
 NAMES = ["a", "b", "c"]
 KINDS = ["M", "C", "F", "A", "L"]
@@ -352,7 +370,9 @@ def check_invariants(w: World, spec: Spec | None):
                 bad.append(("no-self-target", dotted, w.idx(m)))
             elif not t.is_alias:
                 if t.aliases.get(own) is not m:
-                    bad.append(("backref-listed", {"alias": own, "target": w.idx(t), "keys": sorted(k2 for k2, a in t.aliases.items() if a is m)}, w.idx(m)))
+                    holder = t.aliases.get(own)
+                    bad.append(("backref-listed", {"alias": own, "target": w.idx(t), "keys": sorted(k2 for k2, a in t.aliases.items() if a is m),
+                                                   "held_by": None if holder is None else w.idx(holder)}, w.idx(m)))
     return bad
 
 
@@ -378,15 +398,22 @@ def tainted_by(w: World, op):
     return out
 
 
-def is_f1(w: World, failure, tainted) -> bool:
-    """The failing alias was resolved inside a subtree when that subtree was attached, and its registration has not been
-    refreshed since (no later successful resolve_target / target assignment on it): its back-reference still carries the
-    path it had while detached (or that stale key has meanwhile been taken by the alias that really lives there)."""
+def is_f1(w: World, failure, tainted, once_live=frozenset()) -> bool:
+    """Both shapes of C16-F1 (a back-reference registered under the path an alias has while its container is detached):
+    (a) the failing alias was resolved inside a subtree when that subtree was attached, and its registration has not been
+        refreshed since: it is listed only under proper suffixes of its current path (or not at all any more);
+    (b) the failing alias's own key is held by an alias that has never been in the tree: one under construction in a
+        detached container whose detached path happens to spell the same."""
     clause, detail, aid = failure
-    if clause != "backref-listed" or aid not in tainted:
+    if clause != "backref-listed":
         return False
     cur = detail["alias"].split(".")
-    return all(len(k.split(".")) < len(cur) and cur[-len(k.split(".")):] == k.split(".") for k in detail["keys"])
+    if aid in tainted and all(len(k.split(".")) < len(cur) and cur[-len(k.split(".")):] == k.split(".") for k in detail["keys"]):
+        return True
+    hb = detail.get("held_by")
+    if hb is not None and hb >= 0 and id(w.objs[hb]) not in once_live and not is_live(w, w.objs[hb]):
+        return True
+    return False
 
 
 class Direct:
@@ -401,6 +428,8 @@ class Direct:
         self.once_live = set()
         self.history = []
         self.top_down = True
+        self.shrink = True
+        self.reported = False
 
     def dead(self, o) -> bool:
         return id(o) in self.once_live and not is_live(self.w, o)
@@ -479,10 +508,135 @@ class Direct:
             if op[0] == "settarget" and op[1] == op[2] and out != "cyclic" and w.objs[op[1]].is_alias:
                 fails.append(("no-self-target", {"alias": op[1], "outcome": out}, op[1]))
         for f in fails[:3]:
-            fid = "C16-F1" if is_f1(w, f, self.tainted) else None
-            self.ctx.property_failure({"stream": self.label, "history": self.history}, {"clause": f[0], "detail": f[1]}, finding=fid)
+            fid = "C16-F1" if is_f1(w, f, self.tainted, self.once_live) else None
             self.ctx.observe("direct_failure", f[0] + ("/F1" if fid else ""))
+            if fid is None and self.shrink and not self.reported:
+                self.reported = True
+                small = shrink_history([dict(h) for h in self.history], f[0])
+                self.ctx.property_failure({"stream": self.label, "history": small, "original_length": len(self.history)},
+                                          {"clause": f[0], "detail": f[1]}, finding=None)
+            else:
+                self.ctx.property_failure({"stream": self.label, "history": list(self.history)}, {"clause": f[0], "detail": f[1]}, finding=fid)
         return out
+
+
+class _Collect:
+    """Stand-in for ctx while re-running a candidate history during shrinking."""
+
+    def __init__(self):
+        self.fails = []
+        self.known = {}
+
+    def property_failure(self, case, detail, finding=None):
+        self.fails.append((detail["clause"], finding))
+
+    def observe(self, *a, **k):
+        pass
+
+
+def impl_scope_skip(w, op) -> bool:
+    """Cheap implementation-side approximation of the model's `scope` verdict (used when no model verdict is at hand)."""
+    if op[0] == "alloc":
+        return w.alloc_verdict(op[1], op[3]) != "ok"
+    if op[0] == "new" and (w.alloc_verdict(op[4], op[5]) != "ok" or (op[2] != [] and op[2][0] >= len(w.objs))):
+        return True
+    if op[0] in ("new", "set", "del") and op[2] != [] and op[2][0] >= len(w.objs):
+        return True
+    if op[0] == "set" and op[4] >= len(w.objs):
+        return True
+    if op[0] in ("resolve", "settarget"):
+        if op[1] >= len(w.objs) or not w.objs[op[1]].is_alias:
+            return True
+    if op[0] == "settarget":
+        if op[2] >= len(w.objs) or (w.objs[op[2]].is_alias and op[1] != op[2]):
+            return True
+    if op[0] == "resolve":
+        try:
+            if w.col.get_member(w.objs[op[1]].target_path).is_alias:
+                return True
+        except Exception:  # noqa: BLE001
+            pass
+    return through_alias(w, op)
+
+
+def still_fails(hist, clause) -> bool:
+    w = World()
+    c = _Collect()
+    d = Direct(c, w, "shrink")
+    d.shrink = False
+    for h in hist:
+        if h.get("skipped") or impl_scope_skip(w, h["op"]):
+            continue
+        try:
+            d.step(h["op"], h.get("form", "tuple"))
+        except Exception:  # noqa: BLE001
+            return False
+        if any(cl == clause and fid is None for cl, fid in c.fails):
+            return True
+    return False
+
+
+def _refs(op):
+    """Positions in the op that hold object ids: list of (container, index)."""
+    t = op[0]
+    out = []
+    if t in ("new", "del", "set") and op[2]:
+        out.append((op[2], 0))
+    if t == "set":
+        out.append((op, 4))
+    if t in ("resolve", "settarget"):
+        out.append((op, 1))
+    if t == "settarget":
+        out.append((op, 2))
+    tg = op[3] if t == "alloc" else (op[5] if t == "new" else None)
+    if tg and tg[0] == "o":
+        out.append((tg, 1))
+    return out
+
+
+def drop_op(hist, j):
+    """History without step j; object ids renumbered when step j constructed an object. None if someone refers to it."""
+    import copy
+    w = World()
+    allocated = None
+    for i, h in enumerate(hist):
+        before = len(w.objs)
+        if not (h.get("skipped") or impl_scope_skip(w, h["op"])):
+            w.apply(h["op"], h.get("form", "tuple"))
+        elif h["op"][0] == "new" and w.alloc_verdict(h["op"][4], h["op"][5]) == "ok" and (h["op"][2] == [] or h["op"][2][0] < len(w.objs)):
+            w.apply(h["op"], h.get("form", "tuple"), only_alloc=True)
+        if i == j and len(w.objs) > before:
+            allocated = before
+    new = [copy.deepcopy(h) for i, h in enumerate(hist) if i != j]
+    if allocated is not None:
+        for h in new:
+            for cont, idx in _refs(h["op"]):
+                if cont[idx] == allocated:
+                    return None
+                if cont[idx] > allocated:
+                    cont[idx] -= 1
+    return new
+
+
+def shrink_history(hist, clause, budget=300):
+    """Greedy removal of operations while the same clause still fails on the implementation (no model involved)."""
+    try:
+        if not still_fails(hist, clause):
+            return hist
+        changed = True
+        while changed and budget > 0:
+            changed = False
+            for j in range(len(hist) - 1, -1, -1):
+                budget -= 1
+                if budget <= 0:
+                    break
+                cand = drop_op(hist, j)
+                if cand is not None and still_fails(cand, clause):
+                    hist = cand
+                    changed = True
+        return hist
+    except Exception:  # noqa: BLE001
+        return hist
 
 
 # ---------------------------------------------------------------- generators
@@ -722,6 +876,13 @@ def compare_batch(ctx, batch):
         for i, ((op, form), mout) in enumerate(zip(hist, outcomes)):
             ctx.observe("op", op[0])
             ctx.observe("outcome", mout)
+            ctx.observe("op_outcome", f"{op[0]}{'/consumer' if op[0] in ('new', 'set', 'del') and op[1] else ''}:{mout}")
+            if op[0] in ("new", "set", "del"):
+                ctx.observe("key_form", form)
+                ctx.observe("receiver", "collection" if op[2] == [] else "object")
+                ctx.observe("path_len", len(op[3]))
+            if op[0] == "new":
+                ctx.observe("new_kind", op[4] + ("/obj-target" if op[5] and op[5][0] == "o" else ""))
             td = is_top_down(w, op)
             all_td = all_td and td
             if flags[i] is not None and bool(flags[i]) != td:
@@ -755,7 +916,6 @@ def compare_batch(ctx, batch):
         ctx.observe("history_len", len(ops) if len(ops) < 10 else f"{len(ops) // 10 * 10}+")
         ctx.observe("final_depth", depth)
         ctx.observe("final_nodes", nodes if nodes < 10 else f"{nodes // 10 * 10}+")
-        ctx.observe("key_form", "mixed")
         if mismatch is not None:
             ctx.tie_failure("correspondence", "step(model) vs griffe object API", mismatch,
                             {"stream": label, "history": [{"op": o, "form": f} for o, f in hist]})
@@ -813,6 +973,7 @@ def impl_only_history(ctx, n, label="impl-only"):
     rng = ctx.rng
     col = griffe.ModulesCollection()
     hist = []
+    moved = set()
 
     def walk():
         out, stack, seen = [], [((), col)], set()
@@ -846,8 +1007,24 @@ def impl_only_history(ctx, n, label="impl-only"):
                         o = griffe.Alias(name, tp)
                     else:
                         o = {"C": griffe.Class, "F": griffe.Function, "A": griffe.Attribute}[kind](name)
-                hist.append(["new", k if isinstance(k, str) else list(k), type(o).__name__, getattr(o, "target_path", None)])
+                hist.append(["new", k if isinstance(k, str) else list(k), type(o).__name__, getattr(o, "target_path", None),
+                             str(getattr(o, "_filepath", "") or "")])
                 if rng.random() < 0.75:
+                    # C16-F1 through the stub merge of set_member: merge_stubs moves the members of the existing module
+                    # into the replacement while that is still detached (parent None): resolved aliases among them are
+                    # re-registered under the detached path
+                    old = c.members.get(name)
+                    if (old is not None and not old.is_alias and old.is_module and isinstance(o, griffe.Module)
+                            and getattr(old, "_filepath", None) is not None and old._filepath.suffix != o._filepath.suffix):
+                        stack = [old]
+                        while stack:
+                            x = stack.pop()
+                            for mm in x.members.values():
+                                if mm.is_alias:
+                                    moved.add(id(mm))
+                                else:
+                                    stack.append(mm)
+                        ctx.observe("impl_only_event", "stub-merge")
                     col.set_member(k, o)
                 else:
                     col[k] = o
@@ -870,10 +1047,12 @@ def impl_only_history(ctx, n, label="impl-only"):
                 if r < 0.85:
                     hist.append(["resolve", ".".join(q)])
                     a.resolve_target()
+                    moved.discard(id(a))
                 else:
                     q2, v = rng.choice(tree)
                     hist.append(["settarget", ".".join(q), ".".join(q2)])
                     a.target = v
+                    moved.discard(id(a))
                     if v is a:
                         ctx.property_failure({"stream": label, "history": hist}, {"clause": "no-self-target", "detail": "self assignment accepted"})
         except (KeyError, AttributeError, ValueError, ARE, CAE) as e:
@@ -905,8 +1084,16 @@ def impl_only_history(ctx, n, label="impl-only"):
                 else:
                     ctx.observe("impl_only_backref", "direct-ok")
             if bad:
-                ctx.property_failure({"stream": label, "history": list(hist)}, {"clause": bad, "detail": dotted})
-                return
+                fid = None
+                if bad == "backref-listed" and id(m) in moved:
+                    keys = [k2.split(".") for k2, a2 in m.target.aliases.items() if a2 is m]
+                    if keys and all(len(k2) < len(q) and list(q[-len(k2):]) == k2 for k2 in keys):
+                        fid = "C16-F1"
+                ctx.observe("direct_failure", "impl-only:" + bad + ("/F1" if fid else ""))
+                ctx.property_failure({"stream": label, "history": list(hist)}, {"clause": bad, "detail": dotted}, finding=fid)
+                if fid is None:
+                    return
+                continue
     ctx.case({"stream": label, "ops": hist}, len(hist) > 3)
     ctx.observe("stream", label)
 
@@ -957,7 +1144,7 @@ def explore(ctx):
     seqs = [[o] for o in alpha] + [[o1, o2] for o1 in alpha for o2 in alpha]
     red = reduced_alphabet(["a", "b"])
     if ctx.quick:
-        for n, cnt in ((3, 2500), (4, 2500)):
+        for n, cnt in ((3, 6000), (4, 6000)):
             for _ in range(cnt):
                 seqs.append([rng.choice(alpha) if rng.random() < 0.5 else rng.choice(red) for _ in range(n)])
         for s in itertools.product(red, repeat=3):
@@ -966,7 +1153,7 @@ def explore(ctx):
     else:
         ctx.exhaustive = True
         seqs += [list(s) for s in itertools.product(red, repeat=3)]
-        seqs += [list(s) for s in itertools.product(red, repeat=4) if rng.random() < 0.25]
+        seqs += [list(s) for s in itertools.product(red, repeat=4)]
         for n, cnt in ((3, 30000), (4, 30000), (5, 20000)):
             for _ in range(cnt):
                 seqs.append([rng.choice(alpha) for _ in range(n)])
@@ -980,7 +1167,7 @@ def explore(ctx):
     batch = []
 
     # random state-guided histories
-    for stream, cnt in (("top-down", ctx.budget(350, 5000)), ("bottom-up", ctx.budget(250, 3000)), ("malformed", ctx.budget(100, 1500))):
+    for stream, cnt in (("top-down", ctx.budget(1500, 12000)), ("bottom-up", ctx.budget(800, 6000)), ("malformed", ctx.budget(300, 2500))):
         for _ in range(cnt):
             g = Gen(rng, stream)
             hist = g.history(rng.randint(5, 40))
@@ -990,7 +1177,7 @@ def explore(ctx):
                 batch = []
     compare_batch(ctx, batch)
 
-    for _ in range(ctx.budget(150, 2500)):
+    for _ in range(ctx.budget(500, 10000)):
         impl_only_history(ctx, rng.randint(5, 40))
 
     if not ctx.quick:
@@ -1002,9 +1189,6 @@ def explore(ctx):
 
 def search(ctx):
     """A tie broke and no failing input is known yet: evaluate the property on the implementation only, harder."""
-
-    class NoModel:
-        pass
     for stream, cnt in (("top-down", 3000), ("malformed", 500)):
         for _ in range(cnt):
             g = Gen(ctx.rng, stream)
@@ -1012,18 +1196,8 @@ def search(ctx):
             w = World()
             d = Direct(ctx, w, "search-" + stream)
             for op, form in hist:
-                # without the model the scope is decided by the same cheap pre-checks the generator uses
-                if op[0] in ("alloc", "new") and w.alloc_is_scope(op[1] if op[0] == "alloc" else op[4], op[3] if op[0] == "alloc" else op[5]):
-                    continue
-                if op[0] == "settarget" and w.objs[op[2]].is_alias and op[1] != op[2]:
-                    continue
-                if op[0] == "resolve":
-                    try:
-                        if w.col.get_member(w.objs[op[1]].target_path).is_alias:
-                            continue
-                    except Exception:  # noqa: BLE001
-                        pass
-                if through_alias(w, op):
+                # without the model the scope is decided by cheap implementation-side pre-checks
+                if impl_scope_skip(w, op):
                     continue
                 d.step(op, form)
             ctx.evaluations += 1
